@@ -18,7 +18,7 @@ import (
 // This is a zero-allocation alternative to Find() - it returns indices
 // directly instead of creating a Match object.
 func (e *Engine) FindIndices(haystack []byte) (start, end int, found bool) {
-	switch e.strategy {
+	switch e.searchStrategy() {
 	case UseNFA:
 		return e.findIndicesNFA(haystack)
 	case UseDFA:
@@ -64,7 +64,7 @@ func (e *Engine) FindIndicesAt(haystack []byte, at int) (start, end int, found b
 		return -1, -1, false
 	}
 
-	switch e.strategy {
+	switch e.searchStrategy() {
 	case UseNFA:
 		return e.findIndicesNFAAt(haystack, at)
 	case UseDFA:
@@ -1177,7 +1177,7 @@ func (e *Engine) findIndicesAtWithState(haystack []byte, at int, state *SearchSt
 		return -1, -1, false
 	}
 
-	switch e.strategy {
+	switch e.searchStrategy() {
 	case UseNFA:
 		return e.findIndicesNFAAtWithState(haystack, at, state)
 	case UseDFA:
